@@ -51,6 +51,8 @@ func run(c *props.Ctx) {
 		decode[f] = true
 	}
 	plycommon.LAY5(e, ft, func(fn *ssa.Function) bool { return decode[fn] })
+	plycommon.LAY10(e)
+	plycommon.CFG1(e, func(fn *ssa.Function) bool { return decode[fn] })
 
 	c.R.Floor("LAY-4", 22)
 	c.R.Floor("AXIS-1", 30)
@@ -67,4 +69,6 @@ func run(c *props.Ctx) {
 	c.R.Floor("ATTR-1", 6)
 	c.R.Floor("REC-1", 14)
 	c.R.Floor("LAY-5", 2)
+	c.R.Floor("LAY-10", 11)
+	c.R.Floor("CFG-1", 8)
 }
